@@ -822,7 +822,6 @@ func c19KeyConfusion(r *rt.Rec, rng *rand.Rand, rounds int) {
 	}
 }
 
-
 // barrierStore makes the first n Graph() calls return together: the callers
 // then enter the wrapper's bookkeeping at the same moment. It only shapes the
 // interleaving; no verdict depends on it (a lone caller is released after a
